@@ -88,7 +88,7 @@ PROPS['C10'] = dict(
          'non-trivial = generated group is neither trivial nor the full symmetric group; distinct = by hash of the case line',
     trusted_base=['modelled, not verified: FxHashSet/FxHashMap iteration order (model: list order; all compared observables are order-independent)'],
     assumptions=COMMON_ASSUME + ['Group<Perm> is exercised directly (hook) here; through EGraph unions under C01/C02'],
-    pending_theorems=['restriction of a group to non-redundant slots (shrink_slots; exercised by C02)'],
+    pending_theorems=[],
 )
 
 EG_RULE = ('corr.spec.eq: histories over the main language (lam/app/var/let/add/mul/sum, multi-slot leaves f2 f3 f4 g1 g2 g3, '
